@@ -19,14 +19,14 @@ structure Unedited (input : List Scaffold) (pieces : List Piece) (err : Int) : P
   names : (input.map (·.name)).Nodup
   keys : KeysDistinct input
   err0 : 0 ≤ err
-  pieces : ∀ p ∈ pieces, PieceOk input err p
+  piecesOk : ∀ p ∈ pieces, PieceOk input err p
   once : (pieces.map (·.sc.name)).Nodup
   absent : ∀ sc ∈ input, isPresent pieces sc = false → AbsentOk sc
 
 theorem dupCheck_ok (l : List Scaffold) (seen : List Str) (hnd : (l.map (·.name)).Nodup)
     (hdis : ∀ s ∈ l, s.name ∉ seen) :
-    l.foldlM (fun (seen : List Str) s => if seen.contains s.name then throw Err.value else pure (seen ++ [s.name])) seen
-      = .ok (seen ++ l.map (·.name)) := by
+    (l.foldlM (fun (seen : List Str) s => if seen.contains s.name then throw Err.value else pure (seen ++ [s.name])) seen
+      : R (List Str)) = .ok (seen ++ l.map (·.name)) := by
   induction l generalizing seen with
   | nil => simp [pure, Except.pure]
   | cons a r ih =>
@@ -34,7 +34,7 @@ theorem dupCheck_ok (l : List Scaffold) (seen : List Str) (hnd : (l.map (·.name
     have h1 : seen.contains a.name = false := by
       have := hdis a (by simp)
       simpa using this
-    simp only [List.foldlM_cons, h1, Bool.false_eq_true, if_false, bind, Except.bind, pure, Except.pure]
+    simp only [List.foldlM_cons, h1, Bool.false_eq_true, if_false, pure_bind]
     rw [ih (seen ++ [a.name]) hnd.2]
     · simp
     · intro s hs
@@ -91,7 +91,7 @@ theorem remapToInput_unedited (input : List Scaffold) (pieces : List Piece) (pre
   obtain ⟨b1, e1, hstore, hfound, hmulti, hextra, hcuts, hjg, herr, hplain, hpre⟩ :=
     findAssemblyOverlaps_unedited input pieces
       { namer := { autosomePrefix := prefix_ }, nextOid := oid0, joinGap := joinGap, err := err }
-      hu.names hu.keys hu.err0 hu.pieces hu.once ⟨rfl, rfl, rfl⟩ (by intro p _ f _; simp)
+      hu.names hu.keys hu.err0 hu.piecesOk hu.once ⟨rfl, rfl, rfl⟩ (by intro p _ f _; simp)
   simp only [e1]
   have hm1 : b1.multi = [] := hmulti
   simp only [discardOverhanging_nil _ b1 hm1, cutRemaining_nil b1 hm1, hplain.haplotig, renameBySize_nil]
@@ -110,7 +110,7 @@ theorem remapToInput_unedited (input : List Scaffold) (pieces : List Piece) (pre
       (by
         intro sc hsc hpr f hf
         obtain ⟨p, hp, hname⟩ := (isPresent_iff pieces sc).1 hpr
-        have : p.sc = sc := eq_of_name_eq input hu.names _ _ (hu.pieces p hp).mem hsc hname
+        have : p.sc = sc := eq_of_name_eq input hu.names _ _ (hu.piecesOk p hp).mem hsc hname
         exact dHas_true_of_mem _ _ ((hkeys _).2 ⟨p, hp, f, this ▸ hf, rfl⟩))
       (by
         intro sc hsc hpr
@@ -123,7 +123,7 @@ theorem remapToInput_unedited (input : List Scaffold) (pieces : List Piece) (pre
           intro e'
           have : isPresent pieces sc = true := (isPresent_iff pieces sc).2 ⟨p, hp, e'⟩
           rw [hpr] at this; cases this
-        exact hu.keys.across p.sc sc (hu.pieces p hp).mem hsc hne g hg f hf e)
+        exact hu.keys.across p.sc sc (hu.piecesOk p hp).mem hsc hne g hg f hf e)
   rw [addMissing_eq, e2]
   refine ⟨b2, rfl, ?_, ?_, gmulti, ?_, ?_, ?_⟩
   · rw [gstore, hstore]; simp
